@@ -74,7 +74,9 @@ def worker_init():
 def outcome(s, **kw):
     try:
         res = _SF.decoder(s, **kw)
-        return ("ok", res[0] if isinstance(res, tuple) else res)
+        if isinstance(res, tuple):      # positions ignore [nop], so the attribution must be identical too
+            return ("ok", res[0], tuple((a.index, a.token, tuple((x.index, x.token) for x in (a.attribution or []))) for a in res[1]))
+        return ("ok", res)
     except _SF.DecoderError:
         return ("DecoderError",)
     except Exception as e:
